@@ -125,11 +125,11 @@ CLAIMS["C20"] = ("proof",
 
 BC = ("BOUNDED stand-in rcheck/cluster (labelled bounded, never counted as proved): real cluster/syncer/API code on enumerated small clusters. ")
 CLAIMS.update({
- "C11": ("exploration",
-   "BOUNDED ONLY - mergeBlock and the syncer are map/closure/RPC code outside the generator's subset. " + BC +
+ "C11": ("proof",
+   "Deductive part (one kernel only, nothing else of the property is proved): Nodes.FilterID returns exactly the nodes whose ID differs from the given one - none added, none missing - which is the list of peers holderSyncer visits in a pass (a replica left out there would never be repaired). The majority merge itself is BOUNDED ONLY - mergeBlock and the syncer are map/closure/RPC code outside the generator's subset. " + BC +
    "mergeBlock: exhaustive for 2 positions x 1..5 replicas and 3 positions x 2..4 replicas plus seeded random cases over standard/time/bsi fragments and blocks 0,1,3: the local block and every replica after applying its diffs equal the per-bit majority (ties set), nothing outside the block changes. "
    "Complete SyncHolder passes over 2..5 in-process replicas with a routed fake client: every fragment of every replica equals the majority, repairs land in the view they were computed for, checksums agree afterwards; the bit-sliced view of an int field is included (it was a probe without oracle until the defect that made its repair impossible was fixed).",
-   "bounded exploration; the oracle is a hand-written majority model; nothing here is a proof.", "bounded stand-in"),
+   TRUST + "The bounded part's oracle is a hand-written majority model and is not a proof.", "contract-based deductive verification: loop invariants, SMT + bounded stand-in"),
  "C21": ("exploration",
    "BOUNDED ONLY - resize planning (fragSources, resize job generation) is map/closure graph code outside the subset. " + BC +
    "Clusters of 1-6 nodes, replicaN 0..5, two schemas, random available shards, every single add and remove: every (node,index,field,view,shard) newly owned has a source that owned it before and is not the removed node; a refusal only when some need has no surviving owner. Cleanup: the RESIZING->NORMAL transition is played through SetState and, for every non-coordinator node of adds and removes at replicaN 1..3, through mergeClusterStatus with the final membership; what survives is compared with the owner lists of the resulting cluster.",
